@@ -43,6 +43,24 @@ type BPtr struct {
 type Struct []Value
 type Array []Value
 
+// LazyArr is a large array of non-byte elements whose elements are
+// materialised on first access (e.g. IO.pending.static [4096]*Slot).
+type LazyArr struct {
+	N     int64
+	ElemT types.Type
+	M     map[int64]*Value
+}
+
+func (ex *Exec) lazyElem(a *LazyArr, i int64) *Value {
+	if loc, ok := a.M[i]; ok {
+		return loc
+	}
+	loc := new(Value)
+	*loc = ex.zero(a.ElemT)
+	a.M[i] = loc
+	return loc
+}
+
 type BArr struct {
 	A *term.Arr
 	N int64 // static length for typed arrays, -1 for heap stores
@@ -116,6 +134,14 @@ func copyVal(v Value) Value {
 			n[i] = copyVal(v[i])
 		}
 		return n
+	case *LazyArr:
+		n := &LazyArr{N: v.N, ElemT: v.ElemT, M: make(map[int64]*Value, len(v.M))}
+		for k, loc := range v.M {
+			nl := new(Value)
+			*nl = copyVal(*loc)
+			n.M[k] = nl
+		}
+		return n
 	}
 	return v
 }
@@ -140,6 +166,10 @@ func assign(loc *Value, v Value) {
 			return
 		}
 		*loc = copyVal(nv)
+		return
+	}
+	if la, ok := v.(*LazyArr); ok {
+		*loc = copyVal(la)
 		return
 	}
 	*loc = v
@@ -208,6 +238,9 @@ func (ex *Exec) zero(t types.Type) Value {
 	case *types.Array:
 		if isByteType(u.Elem()) {
 			return BArr{A: ex.C.ZeroArr(), N: u.Len()}
+		}
+		if u.Len() > 64 {
+			return &LazyArr{N: u.Len(), ElemT: u.Elem(), M: map[int64]*Value{}}
 		}
 		a := make(Array, u.Len())
 		for i := range a {
